@@ -35,7 +35,11 @@ func init() {
 		if err != nil {
 			panic(err)
 		}
-		p := &Prog{ID: "both", Src: string(data)}
+		src := string(data)
+		if !strings.Contains(src, "§") {
+			src = strings.ReplaceAll(src, "func P()", "func §P()")
+		}
+		p := &Prog{ID: "both", Src: src}
 		r := fw.NewRun("DBG", "exploration")
 		r.SetMinDistinct(0)
 		e1Gate([]*Prog{p})
